@@ -305,3 +305,14 @@ func (m *Mesh) ConnectForeign(inst *netceptor.Netceptor, label, peer string, cos
 
 // NewInst creates an unmanaged instance with the mesh's constants.
 func (m *Mesh) NewInst(id string) *netceptor.Netceptor { return m.newInst(id) }
+
+// LinkList returns a snapshot of all links.
+func (m *Mesh) LinkList() []*LinkInfo {
+	m.mu.Lock()
+	defer m.mu.Unlock()
+	out := []*LinkInfo{}
+	for _, li := range m.Links {
+		out = append(out, li)
+	}
+	return out
+}
